@@ -15,12 +15,9 @@ pub fn get() -> FunctionDefinitions {
                 match self.0.apply(value, 0) {
                     Some(JsonValue::Object(map)) => {
                         let mut map = map.clone();
-                        map.sort_by(|_, v1, _, v2| {
-                            let v1 = value.with_inupt(v1.clone());
-                            let v1 = self.0.apply(&v1, 1);
-                            let v2 = value.with_inupt(v2.clone());
-                            let v2 = self.0.apply(&v2, 1);
-                            v1.cmp(&v2)
+                        map.sort_by_cached_key(|_, v| {
+                            let v = value.with_inupt(v.clone());
+                            self.0.apply(&v, 1)
                         });
 
                         Some(map.into())
